@@ -9,6 +9,8 @@ type Scenario struct {
 	Run func(c *RunCtx)
 	// Race: the worker must be built with the Go race detector; a race report is a violation.
 	Race bool
+	// Instrument: the worker is built against a scratch copy of the tree with statement-level yield points (cmd/instr).
+	Instrument bool
 	// CrashIsViolation: a crash (stack overflow) or hang of the worker inside a run is a violation, not infrastructure trouble.
 	CrashIsViolation bool
 	// QuickRuns / ThoroughRuns: number of seeded runs per tier.
